@@ -101,6 +101,7 @@ partial def interp (M : Sem (Option (List Goat.Num.Val))) : Nat → Stmt → Opt
         | some (.brk, st1) => some (.normal, st1)
         | r' => r'
       else interp M f r (M.ceff c st)
+    | .rng _ _ _ _ => none                             -- MiniGo has no range statement (never parsed by this driver)
 
 /-- the instruction-level machine with jumps (do.go: `N += A`, then `N++`) -/
 partial def vmRun (code : Array Instr) : Nat → Nat → St Goat.Num.Val → Option (Option (St Goat.Num.Val))
